@@ -9,14 +9,16 @@ import (
 
 // legalNext is the life-cycle relation of C09.
 var legalNext = map[string][]string{
-	"Pending":     {"Running", "Launching", "Skipped", "Error", "Terminating"},
-	"Disabled":    {},
-	"Foreground":  {},
-	"Running":     {"Restarting", "Terminating", "Completed", "Error"},
-	"Launching":   {"Launched", "Error", "Terminating", "Restarting", "Completed"},
-	"Launched":    {"Restarting", "Terminating", "Completed"},
-	"Restarting":  {"Running", "Launching", "Completed", "Terminating", "Error"},
-	"Terminating": {"Completed", "Restarting", "Skipped"},
+	// stopped before start shows as Terminating and/or Completed
+	"Pending":    {"Running", "Launching", "Skipped", "Error", "Terminating", "Completed"},
+	"Disabled":   {},
+	"Foreground": {},
+	"Running":    {"Restarting", "Terminating", "Completed", "Error"},
+	"Launching":  {"Launched", "Error", "Terminating", "Restarting", "Completed"},
+	"Launched":   {"Restarting", "Terminating", "Completed"},
+	"Restarting": {"Running", "Launching", "Completed", "Terminating", "Error"},
+	// Error/Skipped: a process stopped while pending may still find out that it cannot run
+	"Terminating": {"Completed", "Restarting", "Skipped", "Error"},
 	"Completed":   {},
 	"Skipped":     {},
 	"Error":       {},
